@@ -144,7 +144,8 @@ static Val run_life(const Val &c)
         case 1: cl->disconnectFromHost(); pumpTill([&]() { return cl->state() == QAbstractSocket::UnconnectedState; }, 500); break;
         case 2:
             cl->write(reqBytes.mid(cut)); cl->flush();
-            pumpTill([&]() { return cl->state() == QAbstractSocket::UnconnectedState; }, kind == 3 ? 150 : 3000);
+            // (a request of several MiB takes its time through the sanitized build: the wait grows with the size)
+            pumpTill([&]() { return cl->state() == QAbstractSocket::UnconnectedState; }, kind == 3 ? 150 : 3000 + int(reqBytes.size() / (1024 * 1024)) * 2500);
             if (got.startsWith("HTTP/1.")) ++responses;
             cl->abort();
             break;
